@@ -227,6 +227,7 @@ CHECKS = {
             {'type': 'custom', 'name': 'lock-order', 'fn': lock_static, 'want': 'order'},
             {'type': 'custom', 'name': 'race', 'fn': race_job, 'tests': ['TestConcurrent', 'TestConcStorm', 'TestSub', 'TestRaw'], 'n': {'quick': 8, 'thorough': 60}},
             C('sub', 'TestSub', 'TraceSub', n={'quick': 40, 'thorough': 600}),
+            C('rawstorm', 'TestRawStorm', 'TraceBurst', trivial_len=0, n={'quick': 5000, 'thorough': 60000}),
         ],
         'rule': 'race: the concurrent hammer (10 patterns x inproc and, shared among them, tcp / tls+tcp / ipc / ws; 2 senders, 2 receivers, option, context and '
                 'endpoint-churn goroutines per socket, hook-driven pipe closes, Close while running) plus the bubble drivers, all under the race detector; '
@@ -353,6 +354,7 @@ CHECKS = {
             R('xpair', 'xpair'), R('pair', 'xpair'), R('xpair1', 'xpair1'), R('pair1', 'xpair1'),
             R('xpush', 'xpush'), R('push', 'xpush'), R('xpull', 'xpull'), R('pull', 'xpull'),
             {'type': 'custom', 'name': 'pushsq0', 'fn': push_sq0},
+            C('rawstorm', 'TestRawStorm', 'TraceBurst', trivial_len=0, n={'quick': 5000, 'thorough': 60000}),
             T('MC_Chain', 'Chain_oneway.cfg', workers=8, tiers=('thorough',)),
             C('chain', 'TestChain', 'TraceChain', trivial_len=3),
         ],
@@ -365,6 +367,7 @@ CHECKS = {
             R('xbus', 'xbus'), R('bus', 'xbus'), R('xstar', 'xstar'), R('star', 'xstar'),
             T('MC_Mesh', 'Mesh_star.cfg', workers=8), T('MC_Mesh', 'Mesh_bus.cfg', workers=4),
             C('mesh', 'TestMesh', 'TraceMesh', trivial_len=3, n={'quick': 1, 'thorough': 6}),
+            C('rawstorm', 'TestRawStorm', 'TraceBurst', trivial_len=0, n={'quick': 5000, 'thorough': 60000}),
         ],
         'assumptions': ASSUME_COMMON,
     },
@@ -423,6 +426,8 @@ CHECKS = {
             T('MC_Surveyor', 'Surveyor_full.cfg', tiers=('thorough',), timeout=3000),
             C('surveyor', 'TestSurveyor', 'TraceSurveyor', n={'quick': 120, 'thorough': 1500}),
             C('respondent', 'TestRespondent', 'TraceRespondent', n={'quick': 40, 'thorough': 400}),
+            T('MC_RawSock', 'Raw_xsurveyor.cfg'), R('xsurveyor', 'xsurveyor'), R('xrespondent', 'xrespondent'),
+            C('opts', 'TestOptions', 'TraceOptions', trivial_len=5, vtimeout=3000),
         ],
         'assumptions': ASSUME_COMMON,
     },
